@@ -284,7 +284,9 @@ func (n *Name) Substitute(old, new Name) {
 			n.Ident = new.Ident
 			n.ChannelID = new.ChannelID
 		}
-	} else if !n.Initialized() && !old.Initialized() && n.Ident == old.Ident {
+	} else if !n.Initialized() && !old.Initialized() && !(n.IsSelf && !old.IsSelf) && n.Ident == old.Ident {
+		// (a reference to the provider keeps the identifier of the channel it was received on only for
+		// printing: it must never be mistaken for a bound name that happens to have the same identifier)
 		n.Ident = new.Ident
 		n.Channel = new.Channel
 		n.ChannelID = new.ChannelID
